@@ -30,15 +30,16 @@ from vlib import build
 from excel2pycl import Executor, Cell
 
 S = {'A1': 1, 'A2': 2, 'A4': 4, 'B1': '=A1+A2', 'B2': '=SUM(A1:A4)', 'B3': '=1/A1', 'B4': '=B1*2', 'C1': '=SUM(A:A)', 'C2': '=T!A1+A1',
-     'C3': '=IF(A3=0,B3,7)', 'C4': '=SUM(A1:A6)', 'D1': '=E1+1', 'D2': '=DAY(TODAY())+A1'}
-T = {'A1': 10, 'B1': '=S!B1+A1'}
+     'C3': '=IF(A3=0,B3,7)', 'C4': '=SUM(A1:A6)', 'D1': '=E1+1', 'D2': '=DAY(TODAY())+A1', 'D3': '=B1', 'D4': '=D3*3'}
+T = {'A1': 10, 'B1': '=S!B1+A1', 'C1': '=S!D3'}
 N1 = {'A1': 100, 'B1': '=A1+1'}          # a sheet whose title is all digits and differs from its position
 TITLES = ['S', 'T', '1']
 # override targets: (sheet index, A1 address, kind)
 TARGETS = [(0, 'A1', 'constant'), (0, 'B1', 'formula'), (0, 'B3', 'failing formula'), (0, 'A3', 'blank in used range'),
-           (0, 'A6', 'below used range'), (0, 'E1', 'right of used range'), (1, 'A1', 'other sheet constant'), (2, 'A1', 'constant on the digit-titled sheet')]
+           (0, 'A6', 'below used range'), (0, 'E1', 'right of used range'), (1, 'A1', 'other sheet constant'), (2, 'A1', 'constant on the digit-titled sheet'),
+           (0, 'D3', 'formula that is a bare reference to another cell'), (0, 'G9', 'beyond the used range and referenced by nothing')]
 QUERY = [(0, 'A1'), (0, 'A3'), (0, 'B1'), (0, 'B2'), (0, 'B3'), (0, 'B4'), (0, 'C1'), (0, 'C2'), (0, 'C3'), (0, 'C4'), (0, 'D1'),
-         (0, 'A6'), (0, 'E1'), (1, 'A1'), (1, 'B1'), (2, 'A1'), (2, 'B1'), (0, 'D2')]
+         (0, 'A6'), (0, 'E1'), (1, 'A1'), (1, 'B1'), (2, 'A1'), (2, 'B1'), (0, 'D2'), (0, 'D3'), (0, 'D4'), (1, 'C1'), (0, 'G9')]
 
 def sheets(edit=()):
     s, t, n1 = dict(S), dict(T), dict(N1)
@@ -138,13 +139,15 @@ def _known(kfs):
     return is_known
 
 
-def _job2(t1, kfs, timeout):
+def _job2(t1, kfs, timeout, quick=False):
     fn, nT, nQ, nF = NS['history2'], len(NS['TARGETS']), len(NS['QUERY']), len(NS['FAM'])
 
     def run(ex):
         v1, t2, v2, style, onebatch, q0, q = z3.Ints(' '.join(H2))
         ex.assume(z3.And(v1 >= 0, v1 <= 1, t2 >= 0, t2 < nT, v2 >= 0, v2 < nF, style >= 0, style <= 1, onebatch >= 0, onebatch <= 1,
                          q0 >= 0, q0 <= 1, z3.Implies(onebatch == 1, q0 == 0), q >= 0, q < nQ))
+        if quick:
+            ex.assume(style == (t2 + v2 + q) % 2)      # quick tier: the addressing style is spread over the histories instead of multiplied in
         vals = [ex.concretize(x) for x in (v1, t2, v2, style, onebatch, q0, q)]
         try:
             out = fn(t1, vals[0], vals[1], vals[2], vals[3], vals[4], vals[5], vals[6])
@@ -154,12 +157,14 @@ def _job2(t1, kfs, timeout):
     return e2.explore(run, timeout=timeout, is_known=_known(kfs))
 
 
-def _job3(t1, kfs, timeout):
+def _job3(t1, kfs, timeout, quick=False):
     fn, nQ, nF = NS['history3'], len(NS['QUERY']), len(NS['FAM'])
 
     def run(ex):
         v1, v2, v3, q = z3.Ints(' '.join(H3))
         ex.assume(z3.And(v1 >= 0, v1 < nF, v2 >= 0, v2 < nF, v3 >= 0, v3 < nF, q >= 0, q < nQ))
+        if quick:
+            ex.assume(v1 < 4)        # quick tier: the first (overwritten) value from the first four of the family
         vals = [ex.concretize(x) for x in (v1, v2, v3, q)]
         try:
             out = fn(t1, *vals)
@@ -183,7 +188,7 @@ def run(report, tier, seed):
         for shape, fn in (('history2', _job2), ('history3', _job3)):
             name = f'{shape}_t{t1}'
             kf_of[name] = findings.for_harness('C04', name)
-            jobs.append((name, fn, (t1, kf_of[name], to)))
+            jobs.append((name, fn, (t1, kf_of[name], to, tier == 'quick')))
     res = e2.run_jobs(jobs, NCPU, deadline=to * 2 + 60)
     total = 0
     for name, r in res.items():
@@ -215,9 +220,9 @@ def run(report, tier, seed):
     report.encoded('Executor.set_cells', 'Executor._set_cells_to_executed_instance', 'Executor.get_cell', 'Executor.set_executed_class', 'handle_cell',
                    'Cell.uid/__hash__/to_dict', 'ExcelInPython.set_arguments', 'ExcelInPython._cell_preprocessor', 'ExcelInPython.exec_function_in')
     report.bound('workbook: 3 sheets (one titled "1" at index 2), 17 cells; 8 override targets (constant, formula, failing formula, blank in range, below / '
-                 'right of used range, other sheet, digit-titled sheet); history2: two writes (second target any of 8, values from a 10-value family incl. two neighbouring doubles and '
+                 'right of used range, other sheet, digit-titled sheet); history2: two writes (second target any of 10, values from a 10-value family incl. two neighbouring doubles and '
                  '1/True/0/False/""/0.0/text, numeric and A1+title addressing, same batch or two batches, optional query in between) then a query of any '
-                 'of 18 cells; history3: one cell written twice in one batch and once more, all value triples. All enumerated.')
+                 'of 22 cells; history3: one cell written twice in one batch and once more, all value triples. All enumerated.')
     report.assume('the reference is the workbook re-translated by the real Parser with a placeholder constant at each overridden position and evaluated '
                   'with the last-write map passed directly to the generated class (so set_arguments/_cell_preprocessor for *constant* cells is trusted)',
                   'the solver enumerates the finite history space (every value is hashed by the code under test, so nothing can stay symbolic); each '
